@@ -243,3 +243,18 @@ def path_with_chords(n, spans, wp=10, wc=11):
     for sp in spans:
         es += [(i, i + sp, wc) for i in range(n - sp)]
     return (n, es)
+
+
+def big_graphs(rng):
+    """a few graphs beyond the range of narrow index types (n > 2^8, n > 2^16), judged against the property text only (too large for the
+    extracted list-based models): a long cycle with a few chords and pendant paths, randomly relabelled"""
+    out = []
+    for n in (300, 66000):
+        es = [(i, (i + 1) % (n - 10), 1) for i in range(n - 10)]                     # one long cycle on the first n-10 vertices
+        es += [(i * 7 % (n - 10), (i * 7 + n // 3) % (n - 10), 1) for i in range(5)]   # five chords
+        es += [(n - 10 + i, n - 9 + i, 1) for i in range(8)]                           # a pendant path component; vertex n-1 isolated
+        es = list({(min(u, v), max(u, v)): (u, v, w) for (u, v, w) in es if u != v}.values())
+        perm = list(range(n)); rng.shuffle(perm)
+        es = [(perm[u], perm[v], w) for (u, v, w) in es]; rng.shuffle(es)
+        out.append((n, es))
+    return out
